@@ -28,18 +28,18 @@ impl TerminationModelBuilder {
                     )
                 })?;
                 let dur = dur_val.as_duration()?;
-                let freq = config.get_config_i64(&"frequency", &local_scope)? as u64;
+                let freq = get_non_negative(config, "frequency", &local_scope)?;
                 Ok(T::QueryRuntimeLimit {
                     limit: dur,
                     frequency: freq,
                 })
             }
             "iterations" => {
-                let iterations = config.get_config_i64(&"limit", &local_scope)? as u64;
+                let iterations = get_non_negative(config, "limit", &local_scope)?;
                 Ok(T::IterationsLimit { limit: iterations })
             }
             "solution_size" => {
-                let solution_size = config.get_config_i64(&"limit", &local_scope)? as usize;
+                let solution_size = get_non_negative(config, "limit", &local_scope)? as usize;
                 Ok(T::SolutionSizeLimit {
                     limit: solution_size,
                 })
@@ -67,4 +67,20 @@ impl TerminationModelBuilder {
         log::info!("app termination model: {:?}", result);
         Ok(result)
     }
+}
+
+/// reads an integer field that counts something. a negative value is refused: cast
+/// with `as u64` it would wrap to a number near 2^64, which is no limit at all.
+fn get_non_negative(
+    config: &serde_json::Value,
+    key: &str,
+    scope: &String,
+) -> Result<u64, CompassConfigurationError> {
+    let value = config.get_config_i64(&key, scope)?;
+    u64::try_from(value).map_err(|_| {
+        CompassConfigurationError::UserConfigurationError(format!(
+            "field {} for {} must not be negative, found {}",
+            key, scope, value
+        ))
+    })
 }
